@@ -342,7 +342,7 @@ def sibling_nested(ctx, i):
 
 
 def run(ctx):
-    n = 400 if ctx.tier == "quick" else 2000
+    n = 400 if ctx.tier == "quick" else 16000
     core.WARM_P = 0.0
     if ctx.replay:
         ctx.inconc("C14 replays are re-generated from the seed; re-run the tier with the recorded seed")
